@@ -19,7 +19,7 @@ every dense write is on the (w >= 0, finite, infoset hit, action hit) path, at a
 that lookup, a plain store of the weight (last entry wins); unknown action -> InvalidAction, infoset
 absent from both tables -> InvalidInfoset; the normalising division is on the total != 0 edge whose
 other edge returns UninitializedInfoset; Ok is dominated by the all-seen test; from_named /
-from_named_eq pass player p's tables with player p's input. Not decided: magnitude effects (two
+from_named_eq pass player p's tables with player p's input. split.rs hands the dense vector's chunks out front to back (both `next` implementations: item = first `len` elements of the rest, remainder kept). Not decided: magnitude effects (two
 huge finite weights whose sum overflows, DESIGN D15).
 """
 ASSUMPTIONS = ['HashMap::get and iter().enumerate().find(|x| key == ..) both implement "lookup by key" over the same table']
@@ -215,6 +215,8 @@ def fmt(cxs):
 
 def run(ctx):
     lib = ctx.lib
+    import splits
+    splits.front_to_back(ctx, 'C14')
     divisions.run(ctx, 'C14')
     fa = ctx.fn('lib', 'Game::<I, A>::strat_into_box', 'C14.anchor')
     fb = ctx.fn('lib', 'Game::<I, A>::strat_into_box_slow', 'C14.anchor')
@@ -374,6 +376,38 @@ def run(ctx):
                         ctx.touch(cf)
                         detail = 'counter captured by the closure mapped over the infoset table starts at 0 and advances by %s' % facts.show(step)[:30]
         if not ok:
+            # ... with the per-action step in a closure of that closure:
+            # infos.iter().map(|info| info.actions.iter().map(|a| { let i = n; n += 1; (a, i) }).collect())
+            for cf in lib.closures_of(f):
+                pf, agg = q.parent_agg(lib, cf)
+                if agg is None or pf is None or not pf.is_closure:
+                    continue
+                top, agg_p = q.parent_agg(lib, pf)
+                if agg_p is None or top is not f:
+                    continue
+                for bi, st, pl, rhs in q.stores(cf):
+                    tgt = strip_refs(pl)
+                    r = strip_refs(rhs)
+                    if r[0] == 'field' and strip_refs(r[1])[0] == 'bin':
+                        r = strip_refs(r[1])
+                    if tgt[0] != 'upvar' or not (r[0] == 'bin' and r[1] in ('Add', 'AddWithOverflow') and strip_refs(r[2]) == tgt) or not is_const(strip_refs(r[3]), 1):
+                        continue
+                    cap1 = strip_refs(agg[2][tgt[1]]) if tgt[1] < len(agg[2]) else None
+                    cap0 = strip_refs(agg_p[2][cap1[1]]) if cap1 is not None and cap1[0] == 'upvar' and cap1[1] < len(agg_p[2]) else None
+                    init0 = cap0 is not None and cap0[0] == 'var' and any(d[0] == 'assign' and is_const(f.rvalue_expr(d[3], d[1]), 0) for d in f.defs.get(cap0[1], []))
+                    ip = q.item_param(pf)
+                    inner = any(q.closure_of(lib, e[2][1])[0] is cf and q.find_sub(e[2][0], lambda x: x[0] == 'field' and x[2] == 'actions' and q.find_sub(x, lambda y: y[0] == 'param' and y[1] == ip) is not None) is not None
+                                and not any(q.is_call(x, nm_) for x in facts.walk(e[2][0]) for nm_ in ('rev', 'filter', 'skip', 'take', 'step_by'))
+                                for bj, t, e in q.calls_named(pf, 'map') if len(e[2]) > 1)
+                    outer = any(q.closure_of(lib, e[2][1])[0] is pf and q.find_sub(e[2][0], lambda x: x[0] == 'param' and x[1] == 2) is not None
+                                and not any(q.is_call(x, nm_) for x in facts.walk(e[2][0]) for nm_ in ('rev', 'filter', 'skip', 'take', 'step_by'))
+                                for bj, t, e in q.calls_named(f, 'map') if len(e[2]) > 1)
+                    if init0 and inner and outer:
+                        ok = True
+                        ctx.touch(cf)
+                        ctx.touch(pf)
+                        detail = 'counter captured by the per-action closure inside the closure mapped over the infoset table: starts at 0, advances by 1 per action, both in order'
+        if not ok:
             # the same walk as `infos.iter().scan(0, |next, info| { let start = *next; *next += info.num_actions(); Some(start) })`
             for bj, t, e in q.calls_named(f, 'scan'):
                 if len(e[2]) != 3 or not is_const(strip_refs(e[2][1]), 0) or q.find_sub(e[2][0], lambda x: x[0] == 'param' and x[1] == 2) is None:
@@ -418,6 +452,24 @@ def run(ctx):
             continue
         for bi, t, e in cs:
             ts = [q.tags(a) for a in e[2]]
+            pn = [(i_, strip_refs(a)[1].rsplit('::', 1)[-1]) for i_, a in enumerate(e[2]) if strip_refs(a)[0] == 'agg' and strip_refs(a)[1] in ('adt:PlayerNum::One', 'adt:PlayerNum::Two')]
+            if len(pn) == 1:
+                # the player is passed as a number and the import picks the tables itself: `densify(PlayerNum::p, strat_p)`
+                g_ = lib.one(callee)
+                ppar = pn[0][0] + 1
+                picked = set()
+                if g_ is not None:
+                    for bj, tj, ej in q.calls_named(g_, 'ind'):
+                        if len(ej[2]) == 2 and strip_refs(ej[2][0]) == ('param', ppar, g_.local_name(ppar)):
+                            picked |= {nm_ for nm_ in ('player_infosets', 'single_infosets') if nm_ in facts.show(ej[2][1])}
+                k_ = 0 if pn[0][1] == 'One' else 1
+                st_tags = [x for i_, x in enumerate(ts) if i_ != pn[0][0] and x]
+                if picked == {'player_infosets', 'single_infosets'} and len(st_tags) == 1 and len(st_tags[0]) == 1:
+                    ctx.verdict(st_tags[0] == {k_}, rule, '%s:%s:player-%s' % (rule, suf.split('::')[-1], k_), 'player p\'s named input is densified against player p\'s multi-action and single-action tables', f.where(bi),
+                                'input %s is imported as PlayerNum::%s; the import selects both tables by that number' % (sorted(st_tags[0]), pn[0][1]), breaks='a player\'s strategy is validated against the other player\'s infosets')
+                else:
+                    ctx.anchor_lost(rule, '%s: tables chosen for %s by player number' % (suf, callee), 'tables picked by ind(): %s; input tags %s' % (sorted(picked), [sorted(x) for x in ts]))
+                continue
             one = len(ts) == 3 and all(len(x) == 1 for x in ts) and ts[0] == ts[1] == ts[2]
             names = 'player_infosets' in facts.show(e[2][1]) and 'single_infosets' in facts.show(e[2][2])
             k = next(iter(ts[0])) if one else '?'
